@@ -104,15 +104,20 @@ func (r *run) buildFnM2(def Fn, fs *fnState) *fnState {
 
 var errorType = reflect.TypeOf((*error)(nil)).Elem()
 
-var m2NameRe = regexp.MustCompile(`_F(\d+)$`)
+var m2NameRe = regexp.MustCompile(`_F(\d+)(\[\.\.\.\]\.func1)?$`)
 
-// m2Name turns the runtime name dig reports for a compiled function into the protocol name "F<id>".
+// m2Name turns the runtime name dig reports for a compiled function into the protocol name "F<id>".  A function whose
+// id is 3 modulo 5 is a closure made by a generic function: its name must carry the "[...].func1" of such a closure,
+// the name of any other function must not.
 func m2Name(runtimeName string) string {
 	m := m2NameRe.FindStringSubmatch(runtimeName)
 	if m == nil {
 		return "?" + runtimeName
 	}
 	n, _ := strconv.Atoi(m[1])
+	if (n%5 == 3) != (m[2] != "") {
+		return "?" + runtimeName
+	}
 	return fmt.Sprintf("F%d", n)
 }
 
